@@ -103,6 +103,7 @@ def run(chk, which="C19"):
             raise core.Inconclusive(f"C19 run failed {rep} {fl}: rc={rc} {se[-300:]}")
         return rep, fl, [json.loads(l) for l in so.splitlines() if l.startswith("{")], ""
 
+    core.reach(chk, emit_tu("float", plans[0][1][:6], units), [[60, 1]])
     pr_list = probes()
     cfgs = core.CONFIGS if tier == "thorough" else [(core.GXX, "c++14"), (core.CLANGXX, "c++17"), (core.GXX, "c++20")]
     pre = '#include "au/au.hh"\n#include "au/units/meters.hh"\n#include "au/units/celsius.hh"\n#include "au/units/fahrenheit.hh"\n#include "au/units/kelvins.hh"\n#include <cstdint>\n#include <type_traits>\n'
